@@ -785,7 +785,8 @@ class Interp:
                         break
             return a0
         # --- closures
-        if name in ("call", "call_mut", "call_once") and len(args) == 2:
+        if name in ("call", "call_mut", "call_once", "async_call", "async_call_mut", "async_call_once") and len(args) == 2:
+            # (an async closure's body builds its future: calling it is an ordinary call returning that coroutine)
             cl = self.deref_val(args[0])
             tup = self.deref_val(args[1])
             if cl is not None and cl[0] == "closure" and cl[1] in self.f.bodies and tup is not None and tup[0] == "tuple":
